@@ -11,6 +11,11 @@ From OCI Require Import Model.Iface Model.Errors Proofs.Client.
 
 Local Open Scope Z_scope.
 
+(* [repu n u]: the first n bytes of u repeated over and over (long bodies made of one
+   multi-byte unit, in case files) *)
+Definition repu (n : N) (u : bytes) : bytes :=
+  firstn (N.to_nat n) (concat (repeat u (N.to_nat n))).
+
 (* ---------------------------------------------------------------- what is observed *)
 
 (* the result of a call, flattened: errors are seen through errors.As only
